@@ -59,7 +59,19 @@ class FakeWS:
             await asyncio.sleep(delay)
         if self.closed:
             raise ConnectionResetError("closed")
-        self.sent.append((self.env.loop.time(), json.loads(s)))
+        frame = json.loads(s)
+        env = self.env
+        # Bitstamp: websocket auth tokens expire; the server checks the token on every private bts:subscribe and refuses an
+        # expired one (the frame is recorded as refused and does not count as a subscription)
+        if env.token_valid_sec is not None and frame.get("event") == "bts:subscribe" and "auth" in frame.get("data", {}):
+            issued = env.token_times.get(frame["data"]["auth"])
+            if issued is None or env.loop.time() - issued > env.token_valid_sec:
+                frame = dict(frame, event="bts:subscribe-refused")
+                self.sent.append((env.loop.time(), frame))
+                self.deliver("text", json.dumps({"event": "bts:error", "channel": "",
+                                                 "data": {"code": 4009, "message": "Connection is unauthorized."}}))
+                return
+        self.sent.append((env.loop.time(), frame))
 
     async def close(self):
         self.mark_closed()
@@ -162,7 +174,8 @@ class _HTTPCtx:
             return _Resp({})
         if "websockets_token" in self.url:
             env.tokens += 1
-            return _Resp({"token": f"tok{env.tokens}", "user_id": "77"})
+            env.token_times[f"tok{env.tokens}"] = env.loop.time()
+            return _Resp({"token": f"tok{env.tokens}", "user_id": "77", "valid_sec": 60})
         return _Resp({})
 
     async def __aexit__(self, *a):
@@ -200,6 +213,8 @@ class Env:
         self.send_delay = 0
         self.nkeys = 0
         self.tokens = 0
+        self.token_times = {}        # Bitstamp websocket token -> virtual time of issue
+        self.token_valid_sec = None  # set by a scenario to make tokens expire (Bitstamp: 60 s)
         self.key_events = []
         self.http_fail_times = []  # virtual times at which a scripted HTTP failure was delivered
         self.key_owner = {}   # listen key -> (endpoint path, symbol) that issued it
